@@ -1330,7 +1330,7 @@ func (r *aeRun) evalCall(fr *frame, c *ssa.Call) any {
 		}
 		return r.derived("Match["+pat+"]", args[1:], c.Type())
 	}
-	if pureExternal[name] {
+	if isPureExternal(name) {
 		short := name[strings.LastIndex(name, ".")+1:]
 		return r.derived(short, args, c.Type())
 	}
